@@ -202,6 +202,8 @@ def kernel(cfg, pos, named, n, draws, observed, meta_bi):
     if draws is not None and draws.shape[1]:
         w = (0.5 if smooth else 1.0) / (1.0 + np.arange(draws.shape[1]))
         acc = acc + draws @ w
+    if cfg.get('gain'):
+        acc = acc * float(cfg['gain'])
     if kind == 'disc':
         d = np.abs(acc)
         lat = cfg.get('lattice')
@@ -568,14 +570,16 @@ def gen_dag_spec(tape, max_nodes=9, allow_stochastic_observed=True):
             shapes[name] = ()
         else:
             lo = 1 if kind in ('sum', 'disc') else 0
-            par = pick_parents(kind, lo, 3)
+            # a discrepancy may itself feed an operation, a summary or another discrepancy
+            par = pick_parents(kind, lo, 3, exclude_disc=not tape.chance('disc_as_parent', 1, 4))
             if kind in ('sum', 'disc') and not any(isinstance(p, str) for p in par):
                 cands = [n['name'] for n in nodes if n['kind'] != 'disc']
                 par[0] = tape.choice('forced_parent', cands)
             if kind == 'disc':
                 # prefer summaries / simulators as parents of a discrepancy
                 pref = have['sum'] + have['sim']
-                if pref and tape.chance('disc_pref', 3, 4):
+                if pref and tape.chance('disc_pref', 3, 4) and \
+                        not any(isinstance(p, str) and p in have['disc'] for p in par):
                     par = [p for p in par if isinstance(p, str) and p in pref] or \
                         [tape.choice('disc_parent', pref)]
                 par = [p for p in par if isinstance(p, str)]
@@ -590,7 +594,8 @@ def gen_dag_spec(tape, max_nodes=9, allow_stochastic_observed=True):
             # named edges (not for discrepancies: their observed twin is args_to_tuple)
             named = {}
             if kind in ('op', 'sim', 'sum') and tape.chance('named_edge', 1, 3):
-                free = [n['name'] for n in nodes if n['kind'] != 'disc' and n['name'] not in par]
+                free = [n['name'] for n in nodes if n['name'] not in par and
+                        (n['kind'] != 'disc' or tape.chance('disc_named_parent', 1, 3))]
                 if free:
                     named[tape.choice('param_name', ['alpha', 'beta', 'w'])] = \
                         tape.choice('named_parent', free)
